@@ -133,6 +133,52 @@ def heading_tail_cases(rng):
             for post in (' Qpost', '\nQpost', '', 'Qpost' if not tokn[-1].isalpha() or not tokn.startswith('\\') else ' Qpost'):
                 out.append({'src': 'Qpre\n\n' + body + post, 'opts': {'pack': '*', 'lang': 'en'}, 'multi': False, 'kind': 'headtail', 'span': (6, 6 + len(body))})
     return out
+def ltinput_flow_cases(rng, n):
+    """detached flows (footnote, caption, footnotetext) of the main document behind an \\LTinput whose file has flows of its own:
+    everything a flow of the main document adds (the paragraph break in front of it, the line break behind it) maps into
+    the span of its own macro call"""
+    out = []
+    for _ in range(n):
+        def w():
+            return 'Q' + ''.join(rng.choice('abcdefghijklmnopqrstuvwxyz') for _ in range(4))
+        fl = lambda: rng.choice(['\\footnote{%s}', '\\caption{%s}', '\\footnotetext{%s}', '\\footnote[2]{%s}'])
+        ftxt = ' '.join([w()] + [(fl() % (w() + ' ' + w())) + ' ' + w() for _ in range(rng.randint(1, 3))])
+        parts = [w() + ' ']
+        pos = len(parts[0])
+        spans = []
+        def add(s):
+            nonlocal pos
+            parts.append(s); pos += len(s)
+        for _ in range(rng.randint(0, 2)):
+            body = w() + ' ' + w(); call = fl() % body
+            spans.append((pos, pos + len(call), body)); add(call); add(' ' + w() + ' ')
+        add(rng.choice(['\\LTinput{f1.tex}', '\\LTinput{f1.tex}\n\n', '\\LTinput{f1.tex} \\LTinput{f1.tex} ']))
+        for _ in range(rng.randint(1, 3)):
+            add(w() + ' ')
+            body = w() + ' ' + w(); call = fl() % body
+            spans.append((pos, pos + len(call), body)); add(call); add(' ')
+        add(w() + '.\n')
+        out.append({'src': ''.join(parts), 'opts': {'pack': '*', 'lang': 'en'}, 'multi': rng.random() < 0.3, 'files': {'f1.tex': ftxt},
+                    'kind': 'ltinput-flow', 'flowspans': spans})
+    return out
+def judge_ltinput_flow(c, r):
+    if r['outcome'] != 'ok' or r.get('stderr'):
+        return []
+    import t2t as _t
+    for lang, txt, pos in _t.all_parts(r, c):
+        for (a, b, body) in c['flowspans']:
+            i = txt.find(body)
+            if i < 0:
+                continue
+            k = i
+            while k > 0 and txt[k - 1] == '\n':
+                k -= 1
+            bad = [(j, pos[j]) for j in range(k, i) if not (a < pos[j] <= b)]
+            # the first of the line breaks in front of a flow may be the end of the preceding text (own position)
+            bad = [x for x in bad if x[0] > k]
+            if bad and i - k >= 3:
+                return ['the paragraph break in front of the detached text %r maps to offset %d, outside its macro call at %d..%d (text %r)' % (body, bad[0][1], a + 1, b, txt[max(0, k - 10):i + len(body)])]
+    return []
 def judge_end(c, r):
     if r['outcome'] != 'ok' or r['stderr']:
         return []
@@ -215,9 +261,21 @@ def run(ctx):
         f = judge_end(c, r)
         if f:
             ctx.violation(f[0], src=c['src'], opts=c['opts'], end_span=list(c['span']))
+    lcs = ltinput_flow_cases(rng, ctx.scale(150, 3000))
+    lres = ctx.pmap(t2t.run_case, lcs)
+    for c, r in zip(lcs, lres):
+        ctx.case(c['src'], nontrivial=True); ctx.count('flows_behind_ltinput')
+        f = judge_ltinput_flow(c, r)
+        if f:
+            ctx.violation(f[0], src=c['src'], opts=c['opts'], files=c['files'], multi=c['multi'], flowspans=[list(x) for x in c['flowspans']])
     corr.t2t(ctx, cases, results, proj=('outcome', 'toks'), limit=ctx.scale(900, 20000))
+    corr.t2t(ctx, lcs, lres, proj=('outcome', 'toks'), limit=ctx.scale(100, 1000))
 
 def judge_witness(w):
+    if w.get('flowspans'):
+        c = {'src': w['src'], 'opts': w.get('opts') or {}, 'multi': w.get('multi', False), 'files': w.get('files'),
+             'flowspans': [tuple(x) for x in w['flowspans']]}
+        return judge_ltinput_flow(c, t2t.run_case({k: v for k, v in c.items() if k != 'flowspans'}))
     if w.get('end_span'):
         c = {'src': w['src'], 'opts': w.get('opts') or {}, 'multi': False, 'span': tuple(w['end_span'])}
         return judge_end(c, t2t.run_case(c))
@@ -237,7 +295,7 @@ def judge_witness(w):
 def replay(data):
     v = data['violation']
     c = v.get('case')
-    if v.get('end_span'):
+    if v.get('end_span') or v.get('flowspans'):
         f = judge_witness(v)
         print('\n'.join(f) if f else 'ok')
         return not f
